@@ -14,6 +14,8 @@ import SfProps.C04Bridge
 import SfProps.C04Paf
 import SfProps.C04Ircam
 import SfProps.C04Svx
+import SfProps.C04Nist
+import SfProps.C04Mat5
 namespace Sf.C04Bridge2
 open Sf Sf.AbsWrite Sf.AbsWriteBridge Sf.C04Bridge
 open Sf.AbsWriteBridge.Small (Cont Laws Valid small2Cont laws_of_small2 small2_machine_facts small_pred_good)
@@ -238,5 +240,113 @@ example : Svx.parse (Sf.Small.closedBytes (Svx.spec C04Svx.exVio) 0 [.write [1, 
       .ok { ch := 1, fmt := C04Svx.exVio.fmtWord, sr := min C04Svx.exVio.sr 65535, frames := 3 } ∧
     Svx.parse (Sf.Small.closedBytes (Svx.spec C04Svx.exCfg) 99 C04Svx.exOps) =
       .ok { ch := 1, fmt := C04Svx.exCfg.fmtWord, sr := min C04Svx.exCfg.sr 65535, frames := 3 } := by decide +kernel
+
+/-! ## containers whose open function drops the caller's frames value before the first header (NIST: `psf->sf.frames = 0`) -/
+
+/-- the same container with the stale frames value pinned at open -/
+def fixStale (K : Cont) (s0 : Nat) : Cont := { K with closed := fun _ ops => K.closed s0 ops, store := fun _ ops => K.store s0 ops }
+
+theorem laws_fixStale {K : Cont} {G : List Small2.WOp → Prop} (L : Laws K G) (s0 : Nat) : Laws (fixStale K s0) G :=
+  { chpos := L.chpos, nb := L.nb, wf := L.wf, block := L.block, notRaw := L.notRaw, codec := L.codec,
+    closedForm := fun _ ops h => L.closedForm s0 ops h, closedParse := fun _ ops h => L.closedParse s0 ops h,
+    closedFn := fun _ _ ops ops' h => L.closedFn s0 s0 ops ops' h,
+    storeForm := fun _ ops h he => L.storeForm s0 ops h he, storeParse := fun _ ops h he => L.storeParse s0 ops h he }
+
+/-! ## NIST / SPHERE (PCM_S8 / 16 / 24 / 32, ULAW, ALAW; 1024-byte text header; decimal rate and sample count) -/
+
+def nistGeom (c : Nist.Cfg) : AbsWrite.Geom := { word := c.endian * 0x10000000 + 0x070000 + c.codec, ch := c.ch, sr := c.sr }
+
+theorem nist_facts (c : Nist.Cfg) (hwf : c.wf) :
+    Small.Small2Facts (Nist.fmt c) Nist.parse (nistGeom c) (encFor c.codec c.big)
+      (guardOf ((encFor c.codec c.big).nbytes * (nistGeom c).ch) (fun D => D / c.bw < 2 ^ 63)) := by
+  obtain ⟨m1, m2, m3⟩ := small2_machine_facts (Nist.fmt c) (Sf.Nist.lawful c) rfl
+  obtain ⟨hcd, hend, hch1, hch2, hsr1, hsr2⟩ := hwf
+  have hcodec : (nistGeom c).codec = c.codec := by
+    show (c.endian * 0x10000000 + 0x070000 + c.codec) % 0x10000 = c.codec
+    rcases hcd with h | h | h | h | h | h <;> omega
+  have hmajor : (nistGeom c).major = 0x07 := by
+    show (c.endian * 0x10000000 + 0x070000 + c.codec) / 0x10000 % 0x1000 = 0x07
+    rcases hcd with h | h | h | h | h | h <;> omega
+  have henc : encOf .raw c.codec c.big = some (encFor c.codec c.big) := by
+    unfold encFor; rcases hcd with h | h | h | h | h | h <;> rw [h] <;> simp [encOf]
+  have hnbw : (encFor c.codec c.big).nbytes = Nist.bytewidth c.codec := by
+    unfold encFor; rcases hcd with h | h | h | h | h | h <;> rw [h] <;> simp [encOf, Enc.nbytes, PcmFmt.nbytes, Nist.bytewidth]
+  have hbw : (encFor c.codec c.big).nbytes * (nistGeom c).ch = c.bw := by rw [hnbw]; rfl
+  obtain ⟨hnb, hewf⟩ := encOf_props _ _ _ _ henc
+  refine { chpos := hch1, nb := hnb, wf := hewf,
+           block := C04.frames_bound_granular _ _ _ _
+             (by rw [hcodec]; rcases hcd with h | h | h | h | h | h <;> rw [h] <;> simp [Geometry.sampleGranular])
+             (by rw [hmajor]; simp),
+           notRaw := by rw [hmajor]; simp, codec := ⟨_, by rw [hcodec]; exact henc⟩,
+           snapForm := m1, closedIsSnap := m2, snapFn := m3, snapParse := ?_, Gdata := fun a b e h => by unfold guardOf at *; rw [← e]; exact h }
+  intro st ops hg
+  rw [hbw] at hg ⊢
+  obtain ⟨h1, _⟩ := C04Nist.nist_snapshot_valid c ⟨hcd, hend, hch1, hch2, hsr1, hsr2⟩ 0 ops hg.2
+  have e : Small2.snapshotBytes (Nist.fmt c) st ops = Nist.snapshotBytes c 0 ops := m3 st 0 ops ops rfl
+  rw [e]
+  refine ⟨_, h1, rfl, rfl, ?_, ?_⟩
+  · show ((if c.codec = 2 ∨ c.codec = 3 ∨ c.codec = 4 then (if c.big then 0x20000000 else 0x10000000) else 0) + 0x070000 + c.codec) % 0x10000000 =
+      (c.endian * 0x10000000 + 0x070000 + c.codec) % 0x10000000
+    rcases hcd with h | h | h | h | h | h <;> (split <;> (try split) <;> omega)
+  · show rateOk (nistGeom c).major c.sr ((Nist.quant c.sr : Nat) : Int) = true
+    rw [hmajor]; simp [rateOk, rateClass, Nist.quant]
+
+/-- the NIST container as the bridge sees it: `nist_open` clears `sf.frames` before the first header, so the caller's stale value
+    never reaches the session machine (`Nist.openW c stale = Small2.openW (fmt c) 0`) -/
+def nistCont (c : Nist.Cfg) : Cont := fixStale (small2Cont (Nist.fmt c) Nist.parse (nistGeom c) (encFor c.codec c.big)) 0
+
+/-- `nistCont` IS the model: its closed file and its store are `Nist.closedBytes` / the store of `Nist.openW`'s session -/
+theorem nistCont_is_model (c : Nist.Cfg) (st : Nat) (ops : List Small2.WOp) :
+    (nistCont c).closed st ops = Nist.closedBytes c st ops ∧
+    (nistCont c).store st ops = (Small2.run (Nist.fmt c) (Nist.openW c st) ops).bytes := ⟨rfl, rfl⟩
+
+/-- NIST: every job of whole frames is accepted under the guard of the 64-bit `sample_count` line (fewer than 2^63 frames) -/
+theorem nist_session_accepted (c : Nist.Cfg) (hwf : c.wf) (ty : Ty) (stale stale' : Nat) (ops : List Small.Op)
+    (hv : Valid c.ch ty ops) (hguard : (Small.sampleList ops).length * (encFor c.codec c.big).nbytes / c.bw < 2 ^ 63) :
+    accepted (Small.recordOf (nistCont c) ty stale stale' ops) = true := by
+  apply guarded_session_accepted (nistCont c) (fun D => D / c.bw < 2 ^ 63) (laws_fixStale (laws_of_small2 (nist_facts c hwf)) 0) ty stale stale' ops hv
+  intro p post e
+  have : (Small.sampleList p).length ≤ (Small.sampleList ops).length := by rw [e, Small.sampleList_append]; simp
+  exact Nat.lt_of_le_of_lt (Nat.div_le_div_right (Nat.mul_le_mul_right _ this)) hguard
+
+/-! ## MAT5 (PCM_U8 / PCM_16 / PCM_32 / FLOAT / DOUBLE, both byte orders; 264-byte header; the reader takes the frames from the file length) -/
+
+def mat5Geom (c : Mat5.Cfg) : AbsWrite.Geom := { word := c.endian * 0x10000000 + 0x0D0000 + c.codec, ch := c.ch, sr := c.sr }
+
+theorem mat5_facts (c : Mat5.Cfg) (hwf : c.wf) :
+    Small.Small2Facts (Mat5.fmt c) Mat5.parse (mat5Geom c) (encFor c.codec (!c.little)) (fun _ => True) := by
+  have hwf0 := hwf
+  obtain ⟨hcd, hend, hch1, hch2, hsr1, hsr2, ht, _, _⟩ := hwf
+  obtain ⟨m1, m2, m3⟩ := small2_machine_facts (Mat5.fmt c) (Sf.Mat5.lawful c ht) rfl
+  have hcodec : (mat5Geom c).codec = c.codec := by
+    show (c.endian * 0x10000000 + 0x0D0000 + c.codec) % 0x10000 = c.codec
+    rcases hcd with h | h | h | h | h <;> omega
+  have hmajor : (mat5Geom c).major = 0x0D := by
+    show (c.endian * 0x10000000 + 0x0D0000 + c.codec) / 0x10000 % 0x1000 = 0x0D
+    rcases hcd with h | h | h | h | h <;> omega
+  have henc : encOf .raw c.codec (!c.little) = some (encFor c.codec (!c.little)) := by
+    unfold encFor; rcases hcd with h | h | h | h | h <;> rw [h] <;> simp [encOf]
+  have hnbw : (encFor c.codec (!c.little)).nbytes = Mat5.bytewidth c.codec := by
+    unfold encFor; rcases hcd with h | h | h | h | h <;> rw [h] <;> simp [encOf, Enc.nbytes, PcmFmt.nbytes, Mat5.bytewidth]
+  obtain ⟨hnb, hewf⟩ := encOf_props _ _ _ _ henc
+  refine { chpos := hch1, nb := hnb, wf := hewf,
+           block := C04.frames_bound_granular _ _ _ _
+             (by rw [hcodec]; rcases hcd with h | h | h | h | h <;> rw [h] <;> simp [Geometry.sampleGranular])
+             (by rw [hmajor]; simp),
+           notRaw := by rw [hmajor]; simp, codec := ⟨_, by rw [hcodec]; exact henc⟩,
+           snapForm := m1, closedIsSnap := m2, snapFn := m3, snapParse := ?_, Gdata := fun _ _ _ h => h }
+  intro st ops _
+  obtain ⟨h1, _⟩ := C04Mat5.mat5_snapshot_valid c hwf0 st ops
+  refine ⟨_, h1, by rw [hnbw]; rfl, rfl, ?_, ?_⟩
+  · show ((if c.little then 0x10000000 else 0x20000000) + 0x0D0000 + c.codec) % 0x10000000 =
+      (c.endian * 0x10000000 + 0x0D0000 + c.codec) % 0x10000000
+    rcases hcd with h | h | h | h | h <;> (split <;> omega)
+  · show rateOk (mat5Geom c).major c.sr ((Mat5.quant c.sr : Nat) : Int) = true
+    rw [C04Mat5.mat5_rate_exact c.sr hsr1 hsr2, hmajor]; simp [rateOk, rateClass]
+
+/-- MAT5: every job of whole frames is accepted — no guard (the reader takes the frame count from the file length), no class -/
+theorem mat5_session_accepted (c : Mat5.Cfg) (hwf : c.wf) (ty : Ty) (stale stale' : Nat) (ops : List Small.Op) (hv : Valid c.ch ty ops) :
+    accepted (Small.recordOf (small2Cont (Mat5.fmt c) Mat5.parse (mat5Geom c) (encFor c.codec (!c.little))) ty stale stale' ops) = true :=
+  cont_session_accepted _ _ (laws_of_small2 (mat5_facts c hwf)) ty stale stale' ops hv trivial (fun _ _ _ => trivial)
 
 end Sf.C04Bridge2
